@@ -111,6 +111,9 @@ func (parser *Parser) nextBulkMessage() (*Message, error) {
 	if num < 0 {
 		return msg, nil
 	}
+	if maxBulkLength < num {
+		return nil, fmt.Errorf(errorInvalidBulkLength, num)
+	}
 
 	msg.bytes, err = parser.nextLengthBytes(num)
 	if err != nil {
